@@ -197,3 +197,25 @@ func concatNameParts(parts ...[]ast.Vertex) string {
 	}
 	return str
 }
+
+// ok (item-independence): out and seen are accumulators, the kind is chosen per element
+func kindsOf(list []ast.Vertex) []string {
+	var out []string
+	seen := 0
+	first := ""
+	for _, t := range list {
+		kind := ""
+		if _, ok := t.(*ast.NameFullyQualified); ok {
+			kind = "function"
+		}
+		if first == "" {
+			first = kind
+		} else {
+			first = first + "," + kind
+		}
+		out = append(out, kind)
+		seen++
+	}
+	_, _ = seen, first
+	return out
+}
